@@ -37,7 +37,10 @@ def c20(ctx: Ctx):
         cfg = ("SPECIFICATION Spec\nCONSTANTS NNodes = %d\n MaxMut = %d\n PairStride = %d\n Seed = %d\n SparseNodes = 30\n SparseOps = %s\nINVARIANT Emit\nCHECK_DEADLOCK FALSE\n"
                % (nn, maxmut, stride, ctx.seed, sparse_ops))
         open(ctx.spec("Gen_C20_run.cfg"), "w").write(cfg)
-        ctx.tlc("Gen_C20", "Gen_C20_run.cfg", label="F generate mutation sequences (BFS)", timeout=2400)
+        # development aid: VERIF_C20_ONLY=graph|mut restricts the run to one half of the universe (a full run sets nothing)
+        only = os.environ.get("VERIF_C20_ONLY", "")
+        if only in ("", "mut"):
+            ctx.tlc("Gen_C20", "Gen_C20_run.cfg", label="F generate mutation sequences (BFS)", timeout=2400)
         n = ctx.unquote(ctx.spec("cases.ndjson"), cases)
         if ctx.tier == "thorough":
             # the pair level is large: keep every single mutation and a seeded 12% of the pairs
@@ -46,22 +49,44 @@ def c20(ctx: Ctx):
             write_ndjson(cases, keep)
             n = len(keep)
         log("[gen] %d cases over %d nodes" % (n, nn))
-        ctx.exhaustive = ctx.tier == "quick"
+        # reference graphs (spec/RefGraph.tla): every lasso of the kind graph up to the bound
+        gmax, gschema, gofat, gtier = (3, 1, 1, "ofat") if ctx.tier == "quick" else (4, 2, 2, "ofat")
+        gcfg = ("SPECIFICATION GSpec\nCONSTANTS GMaxSteps = %d\n GSites = {\"properties\", \"items\", \"additionalProperties\", \"allOf\", \"anyOf\", \"oneOf\", \"not\"}\n"
+                " GSplits = {0, 1, 2, 3, 4, 5}\n GAliasHop = {TRUE, FALSE}\n GMaxSchemaSteps = %d\n GTier = \"%s\"\n GOfatSteps = %d\nINVARIANT GEmit\nCHECK_DEADLOCK FALSE\n"
+                % (gmax, gschema, gtier, gofat))
+        open(ctx.spec("Gen_C20G_run.cfg"), "w").write(gcfg)
+        if os.path.exists(ctx.spec("cases.ndjson")):
+            os.remove(ctx.spec("cases.ndjson"))
+        if only in ("", "graph"):
+            ctx.tlc("Gen_C20G", "Gen_C20G_run.cfg", label="F generate reference graphs (BFS)", timeout=2400)
+        gcases = os.path.join(ctx.scratch, "gcases.ndjson")
+        ng = ctx.unquote(ctx.spec("cases.ndjson"), gcases)
+        with open(cases, "a") as f:
+            for l in open(gcases):
+                f.write(l)
+        log("[gen] %d reference-graph cases (<= %d steps, <= %d chained schema sites)" % (ng, gmax, gschema))
+        n += ng
+        ctx.extra["graph_constants"] = dict(GMaxSteps=gmax, GMaxSchemaSteps=gschema, GTier=gtier, GOfatSteps=gofat, cases=ng)
+        ctx.exhaustive = ctx.tier == "quick" and only == ""
         ctx.extra["generator_constants"] = dict(NNodes=nn, MaxMut=maxmut, PairStride=stride)
     ctx.build_driver()
     logp = os.path.join(ctx.scratch, "log.ndjson")
     ctx.drive(cases, logp, timeout=5400, shards=14)
     rng = random.Random(ctx.seed)
     outcomes = {}
+    goutcomes = {}
     for l in open(logp):
         o = json.loads(l)
         ctx.evaluations += 1
         ctx.nontrivial.add(casehash(o["c"]))
         k = o["obs"]["load"]
         outcomes[k] = outcomes.get(k, 0) + 1
+        if o["c"]["base"]["kind"] == "graph":
+            goutcomes[k] = goutcomes.get(k, 0) + 1
         if rng.random() < 6.0 / 20000:
             ctx.samples.append(dict(c=o["c"], obs=o["obs"]))
     ctx.extra["load_outcomes"] = outcomes
+    ctx.extra["graph_load_outcomes"] = goutcomes
     ctx.rule = ("every mutation operator at every node of the base document (quick: single mutations; thorough: + pairs on a seeded node slice, 12% sampled) "
                 "x entry point (all three for JSON with external refs allowed; data entry also in YAML and with the switch off); every case is distinct")
     ctx.validate("Trace_C20", "Trace_C20.cfg", logp, chunk_lines=4000)
